@@ -1,0 +1,23 @@
+//go:build verif
+
+package jsonx
+
+// Contracts for the deductive verifier in /verif (govc). Comment-only file: adds no code.
+
+// Every decoding entry point goes through unmarshalUseNumber, which switches the decoder to json.Number BEFORE
+// decoding: numbers reach the mapping layer as their exact decimal text, never as a rounded float64.
+//@ func unmarshalUseNumber
+//@   prop C05
+//@   ensures [numbers-kept-exact] calls(UseNumber) == 1 && calls(Decode) == 1 && before(UseNumber, Decode) && arg(UseNumber, 0) == decoder && arg(Decode, 0) == decoder && arg(Decode, 1) == v && result == ret(Decode)
+//@ func Unmarshal
+//@   prop C05
+//@   opaque unmarshalUseNumber, formatError
+//@   ensures [through-the-exact-number-decoder] calls(unmarshalUseNumber) == 1 && arg(unmarshalUseNumber, 0) == ret(json.NewDecoder) && arg(unmarshalUseNumber, 1) == v && (ret(unmarshalUseNumber) == nil ==> result == nil) && (ret(unmarshalUseNumber) != nil ==> result == ret(formatError) && arg(formatError, 1) == ret(unmarshalUseNumber))
+//@ func UnmarshalFromString
+//@   prop C05
+//@   opaque unmarshalUseNumber, formatError
+//@   ensures [through-the-exact-number-decoder] calls(unmarshalUseNumber) == 1 && arg(unmarshalUseNumber, 0) == ret(json.NewDecoder) && arg(unmarshalUseNumber, 1) == v && arg(strings.NewReader, 0) == str && (ret(unmarshalUseNumber) == nil ==> result == nil) && (ret(unmarshalUseNumber) != nil ==> result == ret(formatError) && arg(formatError, 0) == str && arg(formatError, 1) == ret(unmarshalUseNumber))
+//@ func UnmarshalFromReader
+//@   prop C05
+//@   opaque unmarshalUseNumber, formatError
+//@   ensures [through-the-exact-number-decoder] calls(unmarshalUseNumber) == 1 && arg(unmarshalUseNumber, 0) == ret(json.NewDecoder) && arg(unmarshalUseNumber, 1) == v && arg(io.TeeReader, 0) == reader && (ret(unmarshalUseNumber) == nil ==> result == nil) && (ret(unmarshalUseNumber) != nil ==> result == ret(formatError) && arg(formatError, 1) == ret(unmarshalUseNumber))
